@@ -12,7 +12,7 @@ HNext ==
        \/ Finish(u) \/ Yield(u) \/ (\E p \in {NoPool, 0, 1} : Back(u, p)) \/ Suspend(u) \/ Resume(0, u) \/ Resumed(u)
        \/ Cancel(0, u) \/ CancelRet(0, u) \/ Honour(u)
        \/ FreeRet(0, u, 1, tok[u])
-       \/ (u \in MigUnits /\ ((mg[u].cred < 2 /\ \E t \in {AnyPool, 0, 1} : MigReq(0, u, t, {})) \/ (\E r \in 0..2 : MigRet(0, u, r)) \/ (mg[u].ncb < 2 /\ MigCb(u))))
+       \/ (u \in MigUnits /\ ((mg[u].cred < 2 /\ mg[u].infl < 2 /\ \E t \in {AnyPool, 0, 1} : MigReq(0, u, t, {})) \/ (\E r \in 0..2 : MigRet(0, u, r)) \/ (mg[u].ncb < 2 /\ MigCb(u))))
 HSpec == HInit /\ [][HNext]_hvars
 OneStart == \A u \in Units : starts[u] <= 1
 DoneHasNoCancelPending == \A u \in Units : cst[u] = 3 => st[u] \in {"done", "freed", "created", "running", "blocked", "resumable"}
